@@ -126,5 +126,11 @@ def jobs(tier, seed):
 
 META = {
     "expected_covers": {"nvra_history": ["built", "parsed"], "nvra_roundtrip": ["built", "parsed"], "check_nevra_canonical": ["built", "checked"]},
-    "assumptions": [],
+    "assumptions": [
+        "names over [A-Za-z0-9._+-] made of non-empty dash-separated segments, versions and releases over [A-Za-z0-9._+~^] (non-empty, no dash), arch any entry of the real "
+        "RPM_ARCHES table, epoch absent or 0..10^9, optional directory prefix over the name alphabet plus '/', optional '.rpm' suffix",
+        "length bounds per job: quick name<=7, version/release<=4, directory<=3 (plus four jobs at 3/2/2/2); thorough 12/8/8/8; longer parts are outside the claim",
+        "call histories (nvra_history): two parses in one process, parts of 1-2 characters, the caller edits the first result in between",
+        "Rpms._check_nevra: canonical re-formatting of the same parts (epoch always present)",
+    ],
 }
